@@ -77,6 +77,9 @@ func (s *Scenario) Budget() int {
 			b += 12
 		}
 		b += st.Dt
+		if st.K == "population" {
+			b += 60
+		}
 	}
 	return b
 }
@@ -85,7 +88,8 @@ var bookingNames = []string{"", "c08-bk-A", "c08-bk-B", "c08-bk-C"}
 
 // ---------------------------------------------------------------- generators
 var faultKinds = []string{"oversize", "reserved-opcode", "unmasked", "big-control", "truncated", "rst", "half-close", "stall-flood", "idle-stall",
-	"status-churn-flood", "junk-dials-during-sessions", "stall-flood-deny", "stall-flood-expiry"}
+	"status-churn-flood", "junk-dials-during-sessions", "stall-flood-deny", "stall-flood-expiry",
+	"pong-unsolicited", "ping-odd", "close-odd", "fragments"}
 
 func genFaults(r *lib.Rng, i int) *Scenario {
 	sc := &Scenario{Kind: "faults", BufferSize: r.Range(1, 2)}
@@ -111,6 +115,9 @@ func genFaults(r *lib.Rng, i int) *Scenario {
 				st.K = "half-close"
 			}
 			heavy[kind] = true
+		}
+		if st.K == "close-odd" {
+			st.Msgs = r.Intn(5)
 		}
 		if st.K == "stall-flood-deny" || st.K == "stall-flood-expiry" {
 			// the relay's writer for the stalled reader must be blocked in the middle of a write while the
@@ -488,8 +495,16 @@ func childScenario(inPath, outPath string) {
 
 // ---------------------------------------------------------------- client faults
 func frame(opcode byte, masked bool, payload []byte) []byte {
+	return frameFin(true, opcode, masked, payload)
+}
+
+// frameFin: one websocket frame as a client would send it; fin=false leaves the message open
+func frameFin(fin bool, opcode byte, masked bool, payload []byte) []byte {
 	var b []byte
-	b = append(b, 0x80|opcode)
+	if fin {
+		opcode |= 0x80
+	}
+	b = append(b, opcode)
 	mb := byte(0)
 	if masked {
 		mb = 0x80
@@ -569,11 +584,20 @@ func (c *child) runFaults() {
 	c.next = 2
 	for i, st := range c.sc.Steps {
 		so := StepObs{Step: i, K: st.K, Live: []uint64{}}
-		if st.K == "status-churn-flood" || st.K == "junk-dials-during-sessions" {
-			if st.K == "status-churn-flood" {
+		if st.K == "status-churn-flood" || st.K == "junk-dials-during-sessions" || st.K == "population" {
+			switch st.K {
+			case "status-churn-flood":
 				so.Note = c.statusChurnFlood(i)
-			} else {
+			case "junk-dials-during-sessions":
 				so.Note = c.junkDialsDuringSessions(i)
+			default:
+				var failed string
+				so.Note, failed = c.population(i, st.Msgs)
+				if failed != "" {
+					so.Canary = failed
+					so.Events = c.take()
+					c.fail(i, so)
+				}
 			}
 			if err := relay(64); err != nil {
 				so.Pair = err.Error()
@@ -629,6 +653,62 @@ func (c *child) runFaults() {
 		case "idle-stall":
 			tcp.SetReadBuffer(4096)
 			gone = false
+		case "pong-unsolicited":
+			// RFC 6455 allows a pong nobody asked for, with any payload up to 125 bytes
+			for _, n := range []int{0, 1, 7, 8, 9, 125} {
+				tcp.Write(frame(0xA, true, bytes.Repeat([]byte{0xfe}, n)))
+				time.Sleep(15 * time.Millisecond)
+			}
+			time.Sleep(100 * time.Millisecond)
+			tcp.SetLinger(0)
+			tcp.Close()
+		case "ping-odd":
+			for _, pl := range [][]byte{{}, {0}, []byte("\xff\xfe\x00"), bytes.Repeat([]byte("z"), 125), []byte("12345678")} {
+				tcp.Write(frame(0x9, true, pl))
+				time.Sleep(15 * time.Millisecond)
+			}
+			time.Sleep(100 * time.Millisecond)
+			tcp.SetLinger(0)
+			tcp.Close()
+		case "close-odd":
+			switch st.Msgs {
+			case 0:
+				tcp.Write(frame(0x8, true, []byte{}))
+			case 1:
+				tcp.Write(frame(0x8, true, []byte{0x03})) // a status code needs two bytes
+			case 2:
+				tcp.Write(frame(0x8, true, []byte{0x03, 0xe7})) // 999: not a valid status
+			case 3:
+				tcp.Write(frame(0x8, true, append([]byte{0x03, 0xe8}, 0xff, 0xfe))) // 1000 + invalid UTF-8 reason
+			default:
+				tcp.Write(frame(0x8, true, append([]byte{0x03, 0xe8}, bytes.Repeat([]byte("r"), 123)...)))
+				tcp.Write(frame(0x1, true, []byte("after close")))
+			}
+		case "fragments":
+			// a text message in three fragments (one of them empty) with a ping in between, then a binary one
+			// whose last fragment is empty: both are whole messages for the topic
+			tcp.Write(frameFin(false, 0x1, true, []byte("frag-a:")))
+			tcp.Write(frameFin(false, 0x0, true, []byte{}))
+			tcp.Write(frame(0x9, true, []byte("mid")))
+			tcp.Write(frameFin(true, 0x0, true, []byte("end")))
+			tcp.Write(frameFin(false, 0x2, true, []byte("frag-b:end")))
+			tcp.Write(frameFin(true, 0x0, true, []byte{}))
+			// (the relay may hand two queued messages to a reader in one frame: compare the byte stream)
+			so.Note = "fragments-not-relayed-whole"
+			got := ""
+			for len(got) < len("frag-a:endfrag-b:end") {
+				_, data, err := lib.ReadOne(r, 2*time.Second)
+				if err != nil {
+					break
+				}
+				got += string(data)
+			}
+			if got == "frag-a:endfrag-b:end" {
+				so.Note = "fragments-relayed"
+				c.evs = append(c.evs, Ev{E: "Broadcast", N: n, A: 4}, Ev{E: "Broadcast", N: n, A: 5}, Ev{E: "Drain", N: R, Cap: 2})
+			}
+			tcp.SetLinger(0)
+			tcp.Close()
 		case "stall-flood-deny", "stall-flood-expiry":
 			tcp.SetReadBuffer(4096) // never read: after a few MiB the relay's writer for this connection blocks mid-write
 			gone = false
@@ -836,6 +916,94 @@ func (c *child) statusChurnFlood(i int) string {
 	note := fmt.Sprintf("status-churn-flood:sent>=%d,polls>=%d,churns>=%d", bucket(sent), bucket(polls), bucket(churns))
 	mu.Unlock()
 	return note
+}
+
+// population: more than a thousand idle connections at once (thresholds in reply sizes, map growth, lock
+// hold times only show with numbers like these), the relay's own listing of them, 300 bookings with
+// three codes each of which 50 are then denied; canary; a hundred of the connections leave; canary.
+func (c *child) population(i, n int) (string, string) {
+	const topic = "c08pop"
+	t := uint64(8000)
+	base := uint64(50000)
+	conns := make([]*websocket.Conn, n)
+	var wg sync.WaitGroup
+	sem := make(chan struct{}, 32)
+	for k := 0; k < n; k++ {
+		wg.Add(1)
+		go func(k int) {
+			defer wg.Done()
+			sem <- struct{}{}
+			defer func() { <-sem }()
+			for try := 0; try < 3 && conns[k] == nil; try++ {
+				if conn, err := c.open(topic, "c08-bk-pop", fmt.Sprintf("c08-pop-%d", k)); err == nil {
+					conns[k] = conn
+				}
+			}
+		}(k)
+	}
+	wg.Wait()
+	up := 0
+	for k, conn := range conns {
+		if conn != nil {
+			up++
+			c.evs = append(c.evs, Ev{E: "WsAdd", A: 70, N: base + uint64(k)}, Ev{E: "Register", N: base + uint64(k), A: t, Cap: c.sc.BufferSize})
+		}
+	}
+	if up < n {
+		return fmt.Sprintf("population:only-%d-of-%d-connected", bucket(up), n), fmt.Sprintf("the relay stopped admitting connections: %d of %d idle connections got in", up, n)
+	}
+	// the relay's own list must hold every one of them
+	listed := -1
+	for try := 0; try < 20; try++ {
+		if l, err := c.listed("c08-pop-"); err == nil {
+			listed = len(l)
+			if listed == up {
+				break
+			}
+		}
+		time.Sleep(50 * time.Millisecond)
+	}
+	note := "population:status-lists-all"
+	if listed != up {
+		note = fmt.Sprintf("population:status-lists-%d-of-%d", listed, up)
+	}
+	// many bookings with a few codes each, some of them cancelled
+	for b := 0; b < 300; b++ {
+		wg.Add(1)
+		go func(b int) {
+			defer wg.Done()
+			sem <- struct{}{}
+			defer func() { <-sem }()
+			now := time.Now().Unix()
+			cl := c.rl.Claims("c08many", fmt.Sprintf("c08-bk-M%d", b), []string{"read", "write"}, now-1, now-1, now+300)
+			tok := lib.Sign(cl, c.rl.Secret)
+			for k := 0; k < 3; k++ {
+				c.rl.Session("c08many", tok)
+			}
+		}(b)
+	}
+	wg.Wait()
+	for b := 0; b < 50; b++ {
+		c.rl.Deny(fmt.Sprintf("c08-bk-M%d", b*6), time.Now().Unix()+600, c.adm)
+		c.evs = append(c.evs, Ev{E: "DenyBid", A: uint64(3000 + b)})
+	}
+	if res, cev := c.canary(9000 + i); res != "ok" {
+		return note, "with " + fmt.Sprint(up) + " connections registered and after one GET /status: " + res
+	} else {
+		c.evs = append(c.evs, cev...)
+	}
+	for k := 0; k < 100 && k < n; k++ {
+		conns[k].Close()
+		c.evs = append(c.evs, Ev{E: "Unregister", N: base + uint64(k)})
+	}
+	time.Sleep(200 * time.Millisecond)
+	if l, err := c.listed("c08-pop-"); err == nil && len(l) != up-100 {
+		time.Sleep(500 * time.Millisecond)
+		if l, err = c.listed("c08-pop-"); err == nil && len(l) != up-100 {
+			note += fmt.Sprintf(",after-100-left-lists-%d", len(l))
+		}
+	}
+	return note, "" // the caller runs the second canary
 }
 
 func bucket(n int) int {
@@ -1048,6 +1216,10 @@ func oracleScenario(c Case, idx int, res *lib.Result) {
 	}
 	if c.Kind == "faults" {
 		for _, so := range r.Steps {
+			if strings.HasPrefix(so.Note, "population:status-lists-") && so.Note != "population:status-lists-all" {
+				res.Violate(lib.Violation{Clause: "status-incomplete-under-load", Case: idx, Replay: c, Key: "status-incomplete-under-load",
+					Detail: "with more than a thousand connections registered the relay's own listing (GET /status) was not complete: " + so.Note})
+			}
 			if so.Pair != "" && so.Pair != "ok" {
 				res.Violate(lib.Violation{Clause: "fault-not-local", Case: idx, Replay: c, Key: "fault-not-local:" + so.K,
 					Detail: fmt.Sprintf("after fault %q on another connection of the topic the well-behaved pair stopped relaying: %s", so.K, so.Pair)})
